@@ -106,7 +106,48 @@ func marshalRound(w *run.W, tt [2]reflect.Type, r *rand.Rand, vseed uint64) {
 	marshalBoth(w, tt, r, v0, v1v)
 }
 
+// classicCannotEncodeKey mirrors classicCannotDecodeKey for the other direction: classic refuses
+// the TYPE map[K]V (UnsupportedTypeError, whatever the value, even a nil map) unless K has a
+// string or integer kind or implements encoding.TextMarshaler as a non-pointer.  A key type
+// whose MarshalText sits on the pointer receiver only (and whose kind is not string/integer)
+// cannot be encoded by classic at all; v1 must fail with it (counted, not excluded).
+func classicCannotEncodeKey(t reflect.Type, seen map[reflect.Type]bool) bool {
+	if seen[t] {
+		return false
+	}
+	seen[t] = true
+	switch t.Kind() {
+	case reflect.Map:
+		k := t.Key()
+		switch k.Kind() {
+		case reflect.String, reflect.Int, reflect.Int8, reflect.Int16, reflect.Int32, reflect.Int64,
+			reflect.Uint, reflect.Uint8, reflect.Uint16, reflect.Uint32, reflect.Uint64, reflect.Uintptr:
+		default:
+			if !k.Implements(textMarshalerT) {
+				return true
+			}
+		}
+		return classicCannotEncodeKey(t.Elem(), seen)
+	case reflect.Pointer, reflect.Slice, reflect.Array:
+		return classicCannotEncodeKey(t.Elem(), seen)
+	case reflect.Struct:
+		if hasMethods(t) || t == timeT {
+			return false
+		}
+		for i := 0; i < t.NumField(); i++ {
+			if classicCannotEncodeKey(t.Field(i).Type, seen) {
+				return true
+			}
+		}
+	}
+	return false
+}
+
 func marshalBoth(w *run.W, tt [2]reflect.Type, r *rand.Rand, v0, v1v reflect.Value) {
+	if classicCannotEncodeKey(tt[0], map[reflect.Type]bool{}) {
+		// both packages must refuse such a type, whatever the value (finding F29, repaired)
+		w.Count("types_with_key_classic_cannot_encode", 1)
+	}
 	// pass either the value or a pointer to it (pointer-receiver methods become reachable)
 	a0, a1 := v0.Interface(), v1v.Interface()
 	if r.IntN(2) == 0 {
